@@ -135,11 +135,11 @@ def run(ctx):
     range_ok = False
     for n in walk_no_nested(ph.node):
         if isinstance(n, ast.If) and any(isinstance(b, ast.Raise) for b in n.body):
-            for pat in ('L_p < 0 or L_p > 65535', 'L_p > 65535 or L_p < 0', 'not 0 <= L_p <= 65535', 'L_p < 0 or L_p >= 65536',
-                        '0 > L_p or L_p > 65535', 'not (0 <= L_p <= 65535)'):
-                b_ = {}
-                if U.like(n.test, pat, b_):
-                    d_ = U.local_defs(ph.node).get(b_['L_p'], [])
+            from ..dtable import same_bool
+            names = {x.id for x in ast.walk(n.test) if isinstance(x, ast.Name)}
+            for pn_ in names:
+                if same_bool(n.test, '%s < 0 or %s > 65535' % (pn_, pn_)):
+                    d_ = U.local_defs(ph.node).get(pn_, [])
                     if any(v is not None and isinstance(v, ast.Call) and dotted(v.func) == 'int' for v, k_, s_ in d_):
                         range_ok = True
     ints = [c for c in U.calls(ph.node) if dotted(c.func) == 'int']
@@ -285,20 +285,51 @@ def run(ctx):
         okport = okport and not port_ifs[0].orelse
     ck.expect(okport, 'C10-D2', url.qual, 'port appended iff it differs from the scheme default',
               'the port is not omitted exactly when it equals the scheme default', url.loc(port_ifs[0]) if port_ifs else url.loc())
-    v6 = [n for n in walk_no_nested(url.node) if isinstance(n, ast.If) and norm_text(n.test) == 'self.is_ipv6()']
-    ok6 = len(v6) == 1 and any(U.like(b, "L_parts.append('[{}]'.format(self.hostname))") for b in v6[0].body) \
-        and any(U.like(b, 'L_parts.append(self.hostname)') for b in v6[0].orelse)
+    v6 = [n for n in walk_no_nested(url.node) if isinstance(n, ast.If) and norm_text(n.test) in ('self.is_ipv6()', 'not self.is_ipv6()')]
+    ok6 = len(v6) == 1
+    if ok6:
+        yes, no = (v6[0].body, v6[0].orelse) if norm_text(v6[0].test) == 'self.is_ipv6()' else (v6[0].orelse, v6[0].body)
+        ok6 = any(U.like(b, "L_parts.append('[{}]'.format(self.hostname))") for b in yes) \
+            and any(U.like(b, 'L_parts.append(self.hostname)') for b in no)
     ck.expect(ok6, 'C10-D2', url.qual, 'IPv6 hostnames bracketed, others verbatim', 'IPv6 bracket handling changed', url.loc())
-    # ordering of the appended parts
-    order = []
-    for c in sorted(U.calls(url.node, attr='append'), key=lambda c: (c.lineno, c.col_offset)):
-        order.append(norm_text(c.args[0]) if c.args else '')
+    # ordering of the appended parts, per path (decision-tree leaves), not per source line
     first = [n for n in walk_no_nested(url.node) if isinstance(n, ast.Assign) and isinstance(n.value, ast.List)
              and [norm_text(e) for e in n.value.elts] == ['self.scheme', "'://'"]]
     want_order = ['normalize_username(self.username)', "':'", 'normalize_password(self.password)', "'@'",
-                  "'[{}]'.format(self.hostname)", 'self.hostname', "':{}'.format(self.port)", 'self.path', "'?'", 'self.query']
-    ck.expect(bool(first) and order == want_order, 'C10-D2', url.qual, 'scheme :// [user[:pass]@] host [:port] path [?query]',
-              'the normalised URL is assembled from different parts or in a different order: %s' % order, url.loc())
+                  'HOST', "':{}'.format(self.port)", 'self.path', "'?'", 'self.query']
+    bad_order = []
+    n_paths = 0
+    try:
+        uleaves = Interp(repo, url, rename=False).leaves()
+    except Exception as e:
+        uleaves = []
+        bad_order.append('not tabulated: %s' % e)
+    for o in uleaves:
+        seq = []
+        for e in o.effects:
+            m_ = None
+            try:
+                t_ = ast.parse(e, mode='eval').body
+            except SyntaxError:
+                continue
+            if isinstance(t_, ast.Call) and isinstance(t_.func, ast.Attribute) and t_.func.attr == 'append' and len(t_.args) == 1:
+                seq.append(norm_text(t_.args[0]))
+        if not seq:
+            continue
+        n_paths += 1
+        seq = ['HOST' if x in ('self.hostname', "'[{}]'.format(self.hostname)") else x for x in seq]
+        # must be want_order with optional user / password / port / query groups left out
+        idx = -1
+        okseq = seq.count('HOST') == 1 and 'self.path' in seq
+        for x in seq:
+            if x not in want_order or want_order.index(x) <= idx and x != "':'":
+                okseq = False
+                break
+            idx = want_order.index(x)
+        if not okseq:
+            bad_order.append(' '.join(seq))
+    ck.expect(bool(first) and not bad_order and n_paths >= 4, 'C10-D2', url.qual, 'scheme :// [user[:pass]@] host [:port] path [?query] on all %d paths' % n_paths,
+              'the normalised URL is assembled from different parts or in a different order: %s' % bad_order[:2], url.loc())
     qif = [n for n in walk_no_nested(url.node) if isinstance(n, ast.If) and norm_text(n.test) == 'self.query']
     ck.expect(len(qif) == 1, 'C10-D2', url.qual, "'?' + query only when the query is non-empty", 'query separator handling changed', url.loc())
 
